@@ -349,3 +349,126 @@ func H_C17T_three_objects() {
 	o := &vG5Holder{L: []*vG5{{A: vStr("L0A"), D: vndInt("L0D")}, nil, {B: vndInt("L2B"), G: vndBool("L2G")}}, M: map[string]vG5{"k": {C: vStr("MC"), F: vndInt("MF")}}, A: vStr("A")}
 	vRunGroups("C17 groups in slice elements, a map value and the holder", o, true)
 }
+
+// ---- round 4 ----
+
+// maps whose values are structs (not pointers) with two entries that differ in their verdict: as a field under
+// exist / required and as the top-level input; each entry's groups are judged on that entry's own values
+type vGValMapHolder struct {
+	M map[string]vG2 `valid:"exist"`
+	N map[int]vGS    `valid:"required"`
+}
+
+func H_C17_map_struct_values() {
+	switch vndChoice("shape", 3) {
+	case 0:
+		vRunGroups("C17 map[string]T field, two entries", &vGValMapHolder{M: map[string]vG2{"p": {A: vStr("pA"), B: vStr("pB"), Z: "z"}, "q": {A: vStr("qA"), B: "", Z: "z"}}}, true)
+	case 1:
+		vRunGroups("C17 map[int]T field, two entries", &vGValMapHolder{N: map[int]vGS{1: {A: vStr("1A"), B: "x"}, 2: {A: "y", B: vStr("2B")}}}, true)
+	case 2:
+		vRunGroups("C17 top-level map[string]T, two entries", map[string]vG2{"p": {A: vStr("pA"), B: "", Z: "z"}, "q": {A: "", B: vStr("qB"), Z: "z"}}, true)
+	}
+}
+
+// botheq over members of a composite kind: equal means equal values, not equal renderings. Pairs whose %v text
+// coincides although the values differ, pairs that are equal, nil against pointer-to-zero, -0 against +0
+type vGArr struct {
+	A [2]string `valid:"botheq=1"`
+	B [2]string `valid:"botheq=1"`
+}
+type vGSl struct {
+	A []string `valid:"botheq=1"`
+	B []string `valid:"botheq=1"`
+}
+type vGName struct{ First, Last string }
+type vGSt struct {
+	A vGName `valid:"botheq=1"`
+	B vGName `valid:"botheq=1"`
+}
+type vGPtr struct {
+	A *string `valid:"botheq=1"`
+	B *string `valid:"botheq=1"`
+	Z string  `valid:"r1"`
+}
+type vGFl struct {
+	A float64 `valid:"botheq=1"`
+	B float64 `valid:"botheq=1"`
+	Z string  `valid:"r1"`
+}
+type vGIf struct {
+	A interface{} `valid:"botheq=1"`
+	B interface{} `valid:"botheq=1"`
+}
+
+func H_C17_botheq_composite() {
+	empty, x := "", "x"
+	negZero := 0.0
+	negZero = -negZero
+	switch vndChoice("pair", 14) {
+	case 0:
+		vRunGroups("C17 botheq arrays, same text", &vGArr{A: [2]string{"a b", "c"}, B: [2]string{"a", "b c"}}, false)
+	case 1:
+		vRunGroups("C17 botheq arrays, equal", &vGArr{A: [2]string{"a b", "c"}, B: [2]string{"a b", "c"}}, false)
+	case 2:
+		vRunGroups("C17 botheq slices, same text", &vGSl{A: []string{"a b"}, B: []string{"a", "b"}}, false)
+	case 3:
+		vRunGroups("C17 botheq slices, equal", &vGSl{A: []string{"a", "b"}, B: []string{"a", "b"}}, false)
+	case 4:
+		vRunGroups("C17 botheq slices, empty element", &vGSl{A: []string{"", "a"}, B: []string{"a", ""}}, false)
+	case 5:
+		vRunGroups("C17 botheq structs, same text", &vGSt{A: vGName{"de la", "cruz"}, B: vGName{"de", "la cruz"}}, false)
+	case 6:
+		vRunGroups("C17 botheq structs, equal", &vGSt{A: vGName{"de", "la cruz"}, B: vGName{"de", "la cruz"}}, false)
+	case 7:
+		vRunGroups("C17 botheq pointers, nil and pointer to empty", &vGPtr{A: nil, B: &empty, Z: "z"}, false)
+	case 8:
+		x2 := "x"
+		vRunGroups("C17 botheq pointers, distinct pointers to equal strings", &vGPtr{A: &x, B: &x2, Z: "z"}, false)
+	case 9:
+		vRunGroups("C17 botheq floats, -0 and +0", &vGFl{A: negZero, B: 0, Z: "z"}, false)
+	case 10:
+		vRunGroups("C17 botheq floats, 1 and 1.0000000000000002", &vGFl{A: 1, B: 1.0000000000000002, Z: "z"}, false)
+	case 11:
+		vRunGroups("C17 botheq interfaces, int 1 and float 1", &vGIf{A: 1, B: 1.0}, false)
+	case 12:
+		vRunGroups("C17 botheq interfaces, int 1 and string 1", &vGIf{A: 1, B: "1"}, false)
+	case 13:
+		vRunGroups("C17 botheq interfaces, equal", &vGIf{A: "1", B: "1"}, false)
+	}
+}
+
+// groups follow the rules of the call: a call that puts members into a group through a supplied rule set, then
+// a plain call on the same type (tags only), then the supplied rules again
+type vGPlain struct {
+	A string `valid:"either=1"`
+	B string `valid:"either=1"`
+	C string
+	D string `valid:"r1"`
+}
+
+func vC17GroupsPerCall(calls []bool) {
+	vUNoFail = true
+	known := vGlobalRules()
+	rm := RM{"C": "either=1", "D": "botheq=2", "A": "botheq=2", "B": "r2"}
+	for i, withRules := range calls {
+		is := vNum(i)
+		o := &vGPlain{A: vStr("A" + is), B: vStr("B" + is), C: "", D: "d"}
+		vULog = nil
+		r := vNewRef()
+		r.global = known
+		var err error
+		if withRules {
+			err = Struct(o, vCopyRM(rm))
+			r.unscoped = rm
+		} else {
+			err = Struct(o)
+		}
+		r.top(o)
+		vCheckUnordered("C17 groups per call, call "+is, err, r)
+	}
+	vReach("end")
+}
+
+func H_C17_groups_per_call_rp()  { vC17GroupsPerCall([]bool{true, false}) }
+func H_C17_groups_per_call_pr()  { vC17GroupsPerCall([]bool{false, true}) }
+func H_C17_groups_per_call_rpr() { vC17GroupsPerCall([]bool{true, false, true}) }
